@@ -877,7 +877,9 @@ def rule_R93(text, names, stats):
     """(`#! use UNIT without=F1,F2`) in the raw text imported from UNIT every top-level `impl .. { .. }` block that declares
     `fn F` for a listed F is dropped: UNIT assumed F through a hand-written stub, the importing unit proves the real F
     (listed there with `#! fn`), and the two definitions would clash.  Extension (unit sel3, implemented in build/process): a listed F
-    also suppresses the generated stub of a `#! fn ..::F` of UNIT, and the list is inherited by the `#! use` imports nested in UNIT"""
+    also suppresses the generated stub of a `#! fn ..::F` of UNIT, and the list is inherited by the `#! use` imports nested in UNIT.
+    Addition (unit jpexpr): a top-level FREE-function stand-in `[#[attr]]* [pub] fn F(..) .. { body }` of a listed F in UNIT's raw text is dropped as well
+    (unit jpgram's stand-in `predicate_or_paths`); units that list no such name are unaffected (generated text identical)."""
     code = _toks(text)
     spans = []
     depth = 0
@@ -899,6 +901,52 @@ def rule_R93(text, names, stats):
                 stats["R93"] = stats.get("R93", 0) + 1
             i = e + 1
             continue
+        elif depth == 0 and t.kind == "ident" and t.text == "fn" and i + 1 < len(code) and code[i + 1].text in names:
+            # (backwards-compatible addition) a hand-written FREE-function stand-in `[#[attr]]* [pub] fn F(..) -> .. requires/ensures .. { body }`
+            # of a listed F is dropped too.  The body is the first depth-0 brace group after the signature that is followed by the start of
+            # another item (or the end of the text): brace groups inside the contract (`match x { .. },`) are followed by `,` or an operator.
+            ITEM = ("pub", "fn", "#", "impl", "proof", "spec", "open", "closed", "uninterp", "broadcast", "enum", "struct", "type", "use", "mod",
+                    "const", "static", "trait", "unsafe", "exec")
+            k = i + 2
+            e = None
+            while k < len(code):
+                if code[k].kind == "punct" and code[k].text in "([":
+                    k = match_close(code, k) + 1
+                    continue
+                if code[k].kind == "punct" and code[k].text == "{":
+                    c = match_close(code, k)
+                    if c + 1 >= len(code) or code[c + 1].text in ITEM:
+                        e = c
+                        break
+                    k = c + 1
+                    continue
+                k += 1
+            if e is not None:
+                b = i
+                while b > 0:
+                    if code[b - 1].text == "pub":
+                        b -= 1
+                    elif code[b - 1].text == ")" and b >= 4 and code[b - 4].text == "pub" and code[b - 3].text == "(":
+                        b -= 4
+                    elif code[b - 1].text == "]":
+                        o = b - 2
+                        d2 = 1
+                        while o >= 0 and d2 > 0:
+                            if code[o].text == "]":
+                                d2 += 1
+                            elif code[o].text == "[":
+                                d2 -= 1
+                            o -= 1
+                        if o >= 0 and code[o].text == "#":
+                            b = o
+                        else:
+                            break
+                    else:
+                        break
+                spans.append((code[b].start, code[e].end, "// [R93] free-function stub of %s dropped: the importing unit proves the real function" % code[i + 1].text))
+                stats["R93"] = stats.get("R93", 0) + 1
+                i = e + 1
+                continue
         i += 1
     return _replace_spans(text, spans)
 
